@@ -34,9 +34,48 @@ THEOREMS = [
     (M, "C19.dup_result_shape", "the duplicate result is an *error* at position() with message 'Duplicate string with ID: <key>' (literals regenerated from the source)"),
     (M, "C19.changed_result_shape", "the changed-ID result is a *warning* at position() with message 'Changes to string require a new ID: <key>'"),
     (M, "C19.junk_result_shape", "the junk result is an *error* at the start of the region with Junk.error_message()"),
+    # round 4: one run over several files
+    (M, "C19.lint_concat", "L10nLinter.lint over a file list = concatenation, in list order, of what every file yields on its own; raises iff one file raises"),
+    (M, "C19.lint_append", "splitting the file list splits the results (the first failing file decides about the exception)"),
+    (M, "C19.lint_run_state", "the state of a run is exactly the results list plus one get_reference_and_tests question per file with a parser, in order: nothing else is carried from file to file"),
+    (M, "C19.lint_file_independent", "what a run reports for a path is what that file yields on its own, whatever the other files are and wherever it stands (distinct paths)"),
+    (M, "C19.lint_file_same_in_every_run", "two runs that both contain a file report the same results for it"),
+    (M, "C19.lint_order", "reordering the file list only reorders (permutes) the results"),
+    (M, "C19.lint_occurrence_independent", "what lint_entity yields for an occurrence depends on the contents, the keys of the file and the reference, not on the VALUES of the other occurrences"),
+    # round 4: lint/util.py
+    (M, "C19.default_reference", "default_reference_and_tests returns (None, None) for every path"),
+    (M, "C19.mirror_skips_entries_without_reference", "mirror_reference_and_tests: removing an entry without `reference`, wherever it stands, changes no answer (it is skipped without shifting the others)"),
+    (M, "C19.mirror_only_reference_entries", "the answers of mirror_reference_and_tests are those of the configuration restricted to its entries with a reference"),
+    (M, "C19.mirror_first_covering_entry", "a path covered by an entry with a reference gets exactly THAT entry's reference matcher re-rooted at the reference project, and its tests (first matching entry in ProjectFiles.matchers order)"),
+    (M, "C19.mirror_no_covering_entry", "a path no entry with a reference covers gets (None, None)"),
+    (M, "C19.mirror_reference_rerooted", "the reference path is root-of-the-reference-project ++ the same expansion of the reference pattern (groups captured from the linted path); the root is dropped only for an absolute first segment"),
+    (M, "C19.l10n_base_reference", "l10n_base_reference_and_tests: (None, None) iff ProjectFiles.match finds nothing, else the l10n path (first tuple member) and the entry's tests"),
+    (M, "C19.l10n_base_skips_entries_without_reference", "ProjectFiles.match: an entry without reference whose l10n matcher does not apply is skipped without shifting the others"),
+    (M, "C19.checker_needs_reference", "getChecker's table names all five classes; only DTDChecker needs set_reference(current)"),
+    # round 4: lint/cli.py main
+    (M, "C19.exit_status_zero_iff", "main returns 0 iff there are no results, or -W is absent and every result is a warning"),
+    (M, "C19.exit_status_one_iff", "main returns 1 iff there is a result and (-W or some result is not a warning)"),
+    (M, "C19.exit_status_le_one", "main's return value is 0 or 1"),
+    (M, "C19.exit_status_error", "errors present => exit status 1, with or without -W"),
+    (M, "C19.exit_status_warnings_only", "warnings only: exit status 1 exactly with -W"),
+    (M, "C19.printed_lines", "one printed line per result, in result order, of the form `<path> (<line>:<column>): <message>`"),
+    (M, "C19.main_usage_iff", "main ends in the usage error iff --l10n-reference is given and is not an existing directory"),
+    (M, "C19.main_results", "main's results are those of ONE linter run over the reference files with a parser, each against the reference its callable resolved; the return value is the exit status of these results"),
+    (M, "C19.main_duplicate_exits_one", "end to end: a duplicated ID in any linted file makes moz-l10n-lint exit 1, whatever the references and -W"),
+    (M, "C19.main_junk_exits_one", "end to end: an unparsed region in any linted file makes moz-l10n-lint exit 1"),
+    # round 4: KeyedTuple
+    (M, "C19.keyed_contains_key", "`key in KeyedTuple`: some item has the key"),
+    (M, "C19.keyed_contains_fallback", "fall-back to tuple.__contains__: an entity object is found among the items, an unhashable value never"),
+    (M, "C19.keyed_getitem_key", "KeyedTuple[key] is the LAST item with the key; a missing key ends in TypeError"),
 ]
 PARTIAL = []
 TRUSTED = [
+    "round 4: hand-written models Lint/Run.lean (the loop of L10nLinter.lint with its state, checks.getChecker), Lint/Util.lean (the three "
+    "*_reference_and_tests callables, ProjectFiles.match) over the concrete Matcher model of C11/C12, Lint/Cli.lean (argument check, choice of the "
+    "callable, run, exit status, printed lines of lint/cli.py main), Lint/Keyed.lean (KeyedTuple fall-backs); tied by c19.run / c19.getchecker / "
+    "c19.refs / c19.main / c19.cliout / c19.keyed",
+    "inputs of the project-level models taken from the real run: the ProjectFiles object (its Matcher objects serialised node by node; its "
+    "construction is C13's subject), the order of files.iter_reference(), os.path (abspath, split, isdir, relpath), argparse, the TOML loader",
     "hand-written model CLModel/Lint/Linter.lean of L10nLinter.lint/lint_file, EntityLinter, Context.linecol, position/value_position "
     "(base, DTD, Fluent, Android), Junk.error_message, parser.getParser (tied by the `lint`/`getparser`/`linecol` correspondence)",
     "the parsed files (entity kinds, keys, spans), the value classes under `equals` and the tuples of checker.check(e, e) are INPUTS of the model, "
@@ -46,14 +85,21 @@ TRUSTED = [
 ASSUMPTIONS = [
     "no third-party parser plugins (pkg_resources entry points `compare_locales.parsers`) are installed",
     "PO files are outside the property's format list (their keys are tuples); the linted formats are properties, dtd, ini, inc, ftl, android",
+    "POSIX paths; the files of one run have pairwise distinct paths (lint_file_independent needs it; iter_reference() yields distinct paths)",
+    "Matcher objects without `encoding` (the only value compare-locales itself uses), as in C11/C12",
 ]
-LEVEL_TEXT = ("Lean 4 theorems over an executable transliteration of lint/linter.py: for ALL parsed files, reference files and checker outputs, "
+LEVEL_TEXT = ("(round 4: also for ALL file lists — one run = concatenation of the per-file results, per-file results independent of the other files and "
+              "of the order; for ALL configurations — entries without a reference are skipped without shifting the others, a covered path gets its entry's "
+              "reference re-rooted; exit status of moz-l10n-lint ⇔ errors present / -W; tied by runs of the real L10nLinter over sequences of 2-4 files and "
+              "of the real cli.main on generated TOML projects in all three modes.)  "
+              "Lean 4 theorems over an executable transliteration of lint/linter.py: for ALL parsed files, reference files and checker outputs, "
               "lint_file is the per-occurrence concatenation of [duplicate error iff key count > 1] ++ [changed-ID warning iff value differs from the "
               "last reference entity with the key] ++ check results, junk yields exactly one error, clean files yield [], files without a parser are "
               "skipped; the model is tied to the Python by differential runs on generated source/reference files of six formats, and an independent "
               "oracle computes the expected results by construction from the generating records")
-LEVEL_NOTE = ("trusted: Lean kernel; the hand-written model (validated by correspondence, not proved against Python); parsers, `equals` and checkers "
-              "enter as inputs taken from the real objects; plugin parsers are not modelled")
+LEVEL_NOTE = ("trusted: Lean kernel; the hand-written models (validated by correspondence, not proved against Python); parsers, `equals` (the real "
+              "method's verdict) and checkers enter as inputs taken from the real objects; for the command-line model also the ProjectFiles object, the "
+              "order of iter_reference(), os.path and argparse; plugin parsers are not modelled")
 TECHNIQUE = "Lean 4 proof over executable model + differential correspondence + by-construction oracle"
 
 SCRATCH = "/tmp/wt/c19"
@@ -92,6 +138,8 @@ PALETTE = {
         ("Welcome to &brandShortName;", "v8", []),
         ("see &OTHER; of &brandShortName;", "v9", []),
         ("&vendorShortName; and &OTHER;", "v10", []),
+        # white space inside the quotes belongs to the value: a different string
+        ("plain value ", "v1s", []),
     ],
     "ini": [
         ("plain value", "v1", []),
@@ -147,7 +195,8 @@ SIBLINGS = {
 EXTRA_PAIRS = {
     "ftl": [("plain value\n    .title = T1", "plain value\n    .title = T2"), ("\n    .title = T1", "\n    .title = T2"),
             ("multi\n    line", "multi\n        line"), ("plain value", "plain value\n    .title = T1")],
-    "dtd": [("Welcome to &brandShortName;", "see &OTHER; of &brandShortName;"), ("&vendorShortName; and &OTHER;", "plain value")],
+    "dtd": [("Welcome to &brandShortName;", "see &OTHER; of &brandShortName;"), ("&vendorShortName; and &OTHER;", "plain value"),
+            ("plain value", "plain value ")],
 }
 
 
@@ -235,7 +284,7 @@ def print_file(fmt, items):
             P.items.append({"kind": "junk", "off": pos, "text": txt})
             emit(txt + "\n")
             continue
-        raw, sem, chk = PALETTE[fmt][it["val"]]
+        raw, sem, chk = it["rawval"] if "rawval" in it else PALETTE[fmt][it["val"]]
         term = bool(it.get("term", False)) and not raw.startswith("\n")     # a term needs a value
         if fmt == "ftl" and term:
             sem = sem.split("|")[0]                                          # terms compare without their attributes
@@ -628,17 +677,26 @@ def judge(fmt, info, r):
 
 
 def run(ctx):
+    from props import c19_round4 as R4
     out = Outcome()
     out.rule = ("per format (properties, dtd, ini, inc, ftl, android): every record list over 2 keys x 2 values + a junk line up to length 3 (quick) / 4 "
                 "(thorough), each without reference, with a missing reference path and with every reference derived by re-valuing or dropping one record; "
                 "plus seeded random record lists of 1-10 items (5 keys, value palettes with check-violating values, re-spellings, comments, indentation, "
                 "separators, quotes, Fluent terms) with references derived by re-valuing / re-spelling / dropping records and by adding an earlier or later "
                 "duplicate, files without a parser mixed in, reference paths from lint/util.py; plus parser selection on generated paths and linecol on "
-                "generated texts. non-trivial = at least one result; distinct = distinct (format, canonical result list without directory)")
+                "generated texts. non-trivial = at least one result; distinct = distinct (format, canonical result list without directory). "
+                "Round 4: one key occurring 3-4 times with disagreeing values against references holding it once or twice; ONE L10nLinter.lint call over "
+                "sequences of 2-4 files (four .dtd files referencing different entities in every ordered pair and triple, same-format and mixed-format "
+                "sequences, files without parser in between, the same three files in all six orders), expected = concatenation of the per-file expectations; "
+                "generated TOML projects (1-4 [[paths]] entries with / without reference in every order, overlapping entries, tests, excluded configs, "
+                "basepath, working directory) linted by the real cli.main in default / --reference-project / --l10n-reference mode and queried through "
+                "the callables of lint/util.py, expected reference file / tests / results / printed lines / exit status by construction; main on prescribed "
+                "result lists (all level combinations up to length 3, with and without -W / positions); getChecker on generated paths; KeyedTuple "
+                "membership and indexing with keys, objects, unhashable values and ints")
     os.makedirs(SCRATCH, exist_ok=True)
     allcases = []
     for fmt in FORMATS:
-        cs = gen_exhaustive(ctx, fmt) + gen_exhaustive_extra(ctx, fmt)
+        cs = gen_exhaustive(ctx, fmt) + gen_exhaustive_extra(ctx, fmt) + R4.gen_occurrences(ctx, fmt)
         out.count("%s.exhaustive" % fmt, len(cs))
         rnd = gen_random(ctx, fmt, ctx.n(500, 12000))
         out.count("%s.random" % fmt, len(rnd))
@@ -694,6 +752,7 @@ def run(ctx):
     run_paths(ctx, out)
     run_linecol(ctx, out)
     run_probes(ctx, out)
+    R4.run_all(ctx, out)
     clean_scratch()
     return out
 
@@ -810,6 +869,7 @@ def run_probes(ctx, out):
 
 
 def replay(payload):
+    from props import c19_round4 as R4
     res = []
     for v in payload.get("violations", []):
         i = v["input"]
@@ -825,6 +885,8 @@ def replay(payload):
             os.makedirs(SCRATCH, exist_ok=True)
             r = pool.pmap("impl.lint", "impl_case", [[i["case"]]], timeout=10.0)[0]
             res.append({"input": i, "results": r.get("r", {}).get("results") if "r" in r else r, "oracle": judge(fmt, info, r)})
+        elif v.get("op") in ("multi", "project", "cliout", "getchecker", "keyed"):
+            res.append(R4.replay_one(v))
         elif v.get("op") == "getparser":
             r = pool.pmap("impl.lint", "impl_getparser", [[i["path"]]], timeout=5.0)[0]
             got = r.get("r")
